@@ -273,7 +273,7 @@ Qed.
 (* without spreads the mixin guard gives what abstract positions need *)
 Lemma sels_okM_ok_inv g cov C S frs mx : forall b rt r sels,
   sels_okM g cov C S frs mx true b rt r sels = true -> no_spread g sels = true ->
-  exists g' fns, flatten g' S frs rt r sels = Some fns /\ keys_ok C (map field_key fns) = true /\
+  exists g' fns, flatten g' S frs rt r sels = Some fns /\ keys_okD C fns = true /\
                  (cov = true -> NoDup (map (fun f => py_field_name C (field_key f)) fns)).
 Proof.
   intros b rt r sels H Hns.
@@ -283,7 +283,7 @@ Proof.
   pose proof (resolve_no_spread _ _ _ _ _ _ _ _ Hns Hres) as Hm. simpl in Hm. subst ms.
   assert (Hf : flatten g' S frs rt r sels = Some fns) by (apply flatten_M; exact Hfl).
   pose proof (flatten_collect_det _ _ _ _ _ _ _ _ _ Hf Hc) as El. subst l.
-  rewrite map_map in Hk, Hn. exists g', fns. split; [exact Hf|]. split; [exact Hk|].
+  rewrite map_map in Hk, Hn. exists g', fns. split; [exact Hf|]. split; [apply keys_ok_D, Hk|].
   intro Hcov. specialize (Hn Hcov). rewrite map_map in Hn. exact Hn.
 Qed.
 
